@@ -37,6 +37,10 @@ pub struct C02Doc {
     /// order in which entries are read (indices, repeats allowed)
     pub reads: Vec<usize>,
     pub leak_check: bool,
+    /// GameData mode: the numbers of the two chunks the entries are spread over (default 0 and
+    /// 1); chunk numbers need not be consecutive and chunk 0 need not exist
+    #[serde(default)]
+    pub chunks: Option<(u8, u8)>,
 }
 
 pub const PROBES: [&str; 20] = [
@@ -215,6 +219,13 @@ pub fn generate(seed: u64, tier: Tier) -> Doc {
             entries,
             reads,
             leak_check: r.chance(1, 4),
+            chunks: if r.chance(1, 2) {
+                None
+            } else {
+                let a = r.below(10) as u8;
+                let b = (a + 1 + r.below(9) as u8) % 10;
+                Some((a, b))
+            },
         }),
     }
 }
@@ -277,7 +288,7 @@ pub fn directed() -> Vec<Doc> {
             cfg,
             benign,
             io_faults: vec![],
-            body: Body::C02(C02Doc { via, platform: 0, dat_id: dat, entries: entries.clone(), reads: vec![0, 4, 1, 2, 4, 3, 0], leak_check: true }),
+            body: Body::C02(C02Doc { via, platform: 0, dat_id: dat, entries: entries.clone(), reads: vec![0, 4, 1, 2, 4, 3, 0], leak_check: true, chunks: if dat == 5 { Some((2, 7)) } else { None } }),
         });
     }
     out
@@ -459,16 +470,17 @@ pub fn run(doc: &Doc, body: &C02Doc, trace: bool) -> RunResult {
                 gap: e.gap,
                 kind: e.kind.clone(),
             };
+            let (chunk_a, chunk_b) = body.chunks.unwrap_or((0, 1));
             let mut packs = vec![PackSpec {
                 cat: 0x04,
-                chunk: 0,
+                chunk: chunk_a,
                 kind: IndexKind::Both,
                 entries: body.entries.iter().enumerate().filter(|(i, _)| i % 2 == 0).map(|(i, e)| mk(i, e)).collect(),
             }];
             if body.entries.len() > 1 {
                 packs.push(PackSpec {
                     cat: 0x04,
-                    chunk: 1,
+                    chunk: chunk_b,
                     kind: IndexKind::Both,
                     entries: body.entries.iter().enumerate().filter(|(i, _)| i % 2 == 1).map(|(i, e)| mk(i, e)).collect(),
                 });
@@ -675,6 +687,11 @@ pub fn shrink(b: &C02Doc) -> Vec<C02Doc> {
     if b.leak_check {
         let mut n = b.clone();
         n.leak_check = false;
+        out.push(n);
+    }
+    if b.chunks.is_some() {
+        let mut n = b.clone();
+        n.chunks = None;
         out.push(n);
     }
     let shrink_blocks = |v: &Vec<BlockSpec>| -> Vec<Vec<BlockSpec>> {
